@@ -359,7 +359,8 @@ def main(tier, replay):
     v = Verdict(PID)
     cov = {"checker_cmd": "coq/mk.sh theories/Backoff/Props.vo (coqc 8.16.1, full .vo build) + Print Assumptions per theorem",
            "trusted_base": vlib.TRUSTED_BASE + [
-               "modelled: Go int as unbounded Z (no overflow), float64 expo as exact integer min(cap, base*2^n)",
+               "modelled: Go int as unbounded Z (ranges proved by C20_no_overflow), float64 expo as exact integer min(cap, base*2^n) (C20_expo_saturates/_arg_exact + differential on the real expo up to n = 2000)",
+               "b_hi is a ghost field of the model (no counterpart in the code, not compared)",
                "modelled: the closure state of newBackoffFn (attempts, lastSleep) as a record; math/rand jitter treated relationally (observed sleep checked against sleep_ok)",
                "observation of the pre-cut sleep through the package's own 'backoff' debug log line (zap core installed by the driver)",
                "contract normalisation: a back-offer handed to UpdateUsingForked is not used afterwards (documented in the code), the generator never touches it again"]}
@@ -463,5 +464,5 @@ def main(tier, replay):
     vlib.write_evidence(PID, cov, t0, violations=len(v.violations), level="proof",
                         assumptions=["kinds are well formed (0 <= cap, caps bounded by C), BackOffWeight <> 0",
                                      "a back-offer passed to UpdateUsingForked is not used afterwards",
-                                     "C20_budget: ResetMaxSleep and UpdateUsingForked do not both occur in the sequence (per-step form holds always)"])
+                                     "C20_budget_general holds for all sequences relative to the ghost high-water budget; the own-budget form C20_budget needs: ResetMaxSleep and UpdateUsingForked do not both occur", "expo: cap < 2^53 (beyond that float64(cap) rounds; cap > 2^63-513 overflows to MinInt64 — no shipped kind)"])
     return rc
